@@ -484,7 +484,10 @@ def gen_map_node(rng: random.Random) -> dict:
     branchy = rng.random() < 0.4
     failing = rng.random() < 0.4
     inner_nodes = []
-    body = {"b": "failIf", "k": rng.randint(0, 3), "t": "EA"} if failing else {"b": "tag", "t": "a"}
+    if failing and rng.random() < 0.5:
+        body = {"b": "failGe", "k": rng.randint(1, 4), "t": "EA"}     # several items fail, each with its OWN error
+    else:
+        body = {"b": "failIf", "k": rng.randint(0, 3), "t": "EA"} if failing else {"b": "tag", "t": "a"}
     params = [["x", None]]
     n_mapped = rng.randint(1, 3)
     others = ["y", "z"][: n_mapped - 1]
